@@ -187,6 +187,11 @@ def renames(prog, edges=None, funcs=None):
                 same = [f for f in cands if sigs_then.get(f) == sigs_now[g]]
                 if len(same) == 1:
                     cands = same
+            if len(cands) == 1 and sigs_now.get(g) and sigs_then.get(cands[0]):
+                # a renaming keeps what the function is: the same result type, or the same parameters
+                a_, b_ = sigs_then[cands[0]].split("|"), sigs_now[g].split("|")
+                if a_[1] != b_[1] and a_[2:] != b_[2:]:
+                    cands = []
             if len(cands) == 1:
                 mapping[g] = cands[0]
                 changed = True
